@@ -11,6 +11,8 @@ Line protocol (one *program* per line; tokens separated by single spaces):
 * `L;name;dim;params;data;table`   the same distribution already turned into a likelihood by `dist(name=data)`
     `params` = `a,b` (or `.`), `table` = `v0&v1&..=val|...` : log-density (leaf oracle) at the values
     of `name :: params`; every value is a rational vector `1/2,3` (`_` = empty vector)
+* `BayesianProblem`: `D;.;kw` set_data, `P;pos;kw` / `AL;pos;kw` / `AP;pos;kw` = `problem.posterior` /
+    `.likelihood` / `.prior` `.logd(*pos, **kw)`
 * calls: `C;pos;kw` condition, `c;pos;kw` condition but keep the old object (probe), `E;pos;kw` evaluate `logd`, `S` `_as_stacked()`, `N;name` set the name
     `pos` = `v&v` (or `.`), `kw` = `k=v&k=v` (or `.`)
 
@@ -110,6 +112,18 @@ def runCalls : Obj Val LV → List String → List String → Option (List Strin
           match o.logd p k with
           | .ok r => runCalls o cs ((if r.miss = 0 then "val:" ++ fmtRat r.v else "?") :: acc)
           | .error e => runCalls o cs (fmtErr e :: acc)
+        else if op = "D" then   -- BayesianProblem.set_data(**kw)
+          match o.setData k with
+          | .ok o' => runCalls o' cs (fmtObj o' :: acc)
+          | .error e => runCalls o cs (fmtErr e :: acc)
+        else if op = "P" || op = "AL" || op = "AP" then
+          -- problem.posterior / .likelihood / .prior followed by .logd(*pos, **kw); the target is kept
+          match (if op = "P" then o.posterior else if op = "AL" then o.likelihood else o.prior) with
+          | .error e => runCalls o cs (fmtErr e :: acc)
+          | .ok part =>
+            match part.logd p k with
+            | .ok r => runCalls o cs ((if r.miss = 0 then "val:" ++ fmtRat r.v else "?") :: acc)
+            | .error e => runCalls o cs (fmtErr e :: acc)
         else none
       | _, _ => none
     | ["S"] =>
